@@ -41,7 +41,7 @@ def classify(it):
     if it["kind"] == "enum" and it["variants"] and all(v["body"]["style"] == "unit" for v in it["variants"]):
         return "dataless-enum"
     if it["kind"] == "struct" and it["body"]["style"] == "tuple" and len(it["body"]["fields"]) == 1 and \
-            it["body"]["fields"][0]["ty"].replace(" ", "") in ("::std::string::String", "String"):
+            it["body"]["fields"][0]["ty"].replace(" ", "") == "::std::string::String":   # a bare `String` can only be a GENERATED type of that name
         return "string-newtype"
     return "plain"
 
